@@ -8,6 +8,8 @@
 //!  * `TwoClassTies`: two classes, unit weights, rows come in identical-feature pairs with opposite
 //!    labels, so leaves with exactly tied label weights exist by construction.
 //!  * `MultiClass`: 3..5 classes, tie-free weights — impurity sums run over >= 3 hash-ordered terms.
+//! (The four hash-order fixes proposed by this check are in /repo; the class-named signatures below are kept so
+//! that a regression of one of them is reported under the name of the old finding, but nothing is excluded.)
 //! Naive Bayes: generic data vs. data with exactly tied posteriors (mirrored Gaussian classes and an
 //! all-zero query; duplicated multinomial classes); tie rows and generic rows are separate parts.
 
@@ -54,6 +56,11 @@ pub struct Cfg {
     /// trees: last feature column is a copy of the first
     #[serde(default)]
     pub dup_column: bool,
+    /// trees (all kinds but the engineered-tie one): real-valued, non-dyadic f32 sample weights through
+    /// `with_weights` instead of the per-class weights — class totals are then inexact f32 sums, so every sum
+    /// over classes that runs in hash order shows
+    #[serde(default)]
+    pub real_weights: bool,
 }
 
 /// canonical JSON: object keys sorted (HashMap-backed models are compared by content)
@@ -129,6 +136,10 @@ impl Cfg {
                 y[2 * i + 1] = 1;
             }
             (x, y, None)
+        } else if self.real_weights {
+            let mut r = SplitMix(self.data_seed ^ 0x3e16);
+            let w = Array1::from_shape_fn(self.n, |i| (0.1 + 0.37 * ((i % 7) as f64) + 0.9 * r.unit()) as f32);
+            (x, y, Some(w))
         } else {
             let w = y.mapv(|c| 1.0f32 + c as f32 / 1024.0);
             (x, y, Some(w))
@@ -392,6 +403,11 @@ impl Runnable for Cfg {
         if self.is_tree() {
             obs.class_if(self.entropy && self.kind != Kind::TreeDefaults, "tree_entropy");
             obs.class_if(self.dup_column && self.p >= 2, "tree_duplicate_feature_column");
+            obs.class_if(self.real_weights && self.kind != Kind::TreeTwoClassTies, "tree_real_valued_sample_weights");
+            obs.class_if(
+                self.real_weights && self.kind == Kind::TreeMultiClass,
+                "tree_three_plus_classes_real_valued_weights",
+            );
             if let Some(crate::driver::Outcome::Done(o)) = runs.first().map(|r| &r.outcome) {
                 let leaves: usize = o.note_of("leaves").and_then(|s| s.parse().ok()).unwrap_or(0);
                 let feats: usize = o.note_of("distinct_features").and_then(|s| s.parse().ok()).unwrap_or(0);
@@ -427,9 +443,9 @@ pub fn strategy(tier: Tier) -> impl Strategy<Value = Cfg> {
     ];
     (
         (kind, any::<u64>(), 12usize..=max_n, 1usize..=5, 2usize..=5),
-        (any::<bool>(), 0usize..=6, 1u8..=6, 1u8..=3, 1usize..=3, proptest::bool::weighted(0.3)),
+        (any::<bool>(), 0usize..=6, 1u8..=6, 1u8..=3, 1usize..=3, proptest::bool::weighted(0.3), proptest::bool::weighted(0.5)),
     )
-        .prop_map(|((kind, data_seed, n, p, classes), (entropy, max_depth, min_weight_split, min_weight_leaf, batches, dup_column))| Cfg {
+        .prop_map(|((kind, data_seed, n, p, classes), (entropy, max_depth, min_weight_split, min_weight_leaf, batches, dup_column, real_weights))| Cfg {
             kind,
             data_seed,
             n,
@@ -441,5 +457,6 @@ pub fn strategy(tier: Tier) -> impl Strategy<Value = Cfg> {
             min_weight_leaf,
             batches,
             dup_column,
+            real_weights,
         })
 }
